@@ -281,6 +281,10 @@ def single_op_programs(N=4):
             else: out.append(Program(N, [(1, 'sin', (0,), {}), (2, nm, (0, 1), {})], nm))
     for sl in (0, -1, slice(1, None), slice(None, None, -1), slice(None, None, 2), Ellipsis, (slice(0, 2),), numpy.newaxis):
         out.append(Program(N, [(1, 'sin', (0,), {}), (2, 'getitem', (1,), {'sl': sl})], 'getitem[%s]' % (sl,)))
+    # index arrays / boolean masks (copies: their adjoint is accumulated, repeated indices included); the same selection taken twice
+    for nm_, sl in (('ia', [0, 2]), ('ia-repeated', [0, 0, 3]), ('mask', numpy.array([True, False, True, True]))):
+        out.append(Program(N, [(1, 'sin', (0,), {}), (2, 'getitem', (1,), {'sl': sl})], 'getitem[%s]' % nm_))
+        out.append(Program(N, [(1, 'sin', (0,), {}), (2, 'getitem', (1,), {'sl': sl}), (3, 'getitem', (1,), {'sl': sl}), (4, 'mul', (2, 3), {})], 'getitem[%s]x2' % nm_))
     for sl in ((0, 1), (slice(None), 1), (1, slice(None)), (slice(None, None, -1), slice(0, 2)), (Ellipsis, 0), -1):
         out.append(Program(N, mat + [(2, 'getitem', (1,), {'sl': sl})], 'getitem2d[%s]' % (sl,)))
     for shape in ((N, 1), (1, N), (-1,)):
